@@ -411,3 +411,14 @@ impl Stats {
         s
     }
 }
+
+
+/// Run `f` on a thread with the stack a user's program has by default (8 MiB, the usual main-thread
+/// limit). The harness itself runs on a 256 MiB stack so that *its* bookkeeping never overflows; the
+/// scale cases call the crate through this function instead, so that recursion whose depth grows with
+/// the size of the input (number of states, length of a list) overflows here as it would for a user.
+/// A stack overflow aborts the process; the driver reports it as `<ID>/stack-overflow`.
+pub const USER_STACK: usize = 8 << 20;
+pub fn on_user_stack<R: Send>(f: impl FnOnce() -> R + Send) -> R {
+    std::thread::scope(|s| std::thread::Builder::new().stack_size(USER_STACK).spawn_scoped(s, f).expect("spawn").join().expect("scale-case thread panicked"))
+}
